@@ -20,8 +20,11 @@ SHAPES = ["accept", "reject", "before-user", "after-login", "anonymous-then-pass
           # what happens *after* an accepted login, alone and next to another session of the same account
           "accept-then-work", "accept-relogin", "two-sessions-quit-relogin", "two-sessions-drop-relogin",
           # a custom user manager that guards its password check with aioftp.with_timeout, and the check stalls
-          "auth-times-out"]
-ACCEPTING = ("accept", "retry", "accept-then-work", "accept-relogin", "two-sessions-quit-relogin", "two-sessions-drop-relogin")
+          "auth-times-out",
+          # the PASS line is cut off: its bytes arrive without the line end and the connection ends
+          "eof-after-pass", "eof-after-right-pass"]
+ACCEPTING = ("accept", "retry", "accept-then-work", "accept-relogin", "two-sessions-quit-relogin", "two-sessions-drop-relogin",
+             "eof-after-right-pass")
 SPELL = ["PASS", "pass", "PaSs"]
 # spellings that are not PASS under str.lower() but are under other case mappings (casefold, upper): if the server
 # takes one of them for PASS its argument is a password and must not be logged; if it answers 502 it is not a password
@@ -118,10 +121,21 @@ def scenario(shape, spelling, p, via_client):
                     "two-sessions-quit-relogin": ["USER bob", line, (1, "@connect"), (1, "USER bob"), (1, line),
                                                   "QUIT", (1, "USER bob"), (1, line), (1, "PWD")],
                     "auth-times-out": ["USER bob", line],
+                    "eof-after-pass": ["USER bob", ("@eof", line)],
+                    "eof-after-right-pass": ["USER bob", ("@eof", line)],
                     "two-sessions-drop-relogin": ["USER bob", line, (1, "@connect"), (1, "USER bob"), (1, line),
                                                   "USER bob", (1, "@drop"), line, "PWD", "USER bob", line],
                 }[shape]
                 for h in hist:
+                    if isinstance(h, tuple) and h[0] == "@eof":
+                        sess = rig.sessions[0]
+                        raw = h[1] if isinstance(h[1], bytes) else h[1].encode("utf-8")
+                        sess.send(raw.rstrip(b"\r\n"))          # no line end ...
+                        rig.world.settle(0)
+                        sess.peer.vanish()                      # ... and the connection ends
+                        rig.world.settle()
+                        codes.append(["<eof>"])
+                        continue
                     if isinstance(h, tuple):
                         who, h = h
                         if rig.sessions[who].ctl is None and h != "@connect":
